@@ -57,6 +57,28 @@ def depth1(quick):
     return out
 
 
+def register_plus_constant(quick):
+    """`register + constant` of a 64-bit register is a class of its own in the generator (Sum, made for address
+    arithmetic) with its own operators: every operator applied to such a sum, on either side, with the other
+    operand a variable, a register or a constant.  Added when sequences of statements (X08) showed
+    `(r + c) - x` computed as `(r + c) + x`; the random depth-2 trees had not met the shape."""
+    out = []
+    k = 0
+    others = [("var", "Q"), ("var", "i"), ("var", "B"), ("reg", "r"), ("local", "q"), ("const", 9)]
+    for kind, inner, c in itertools.product(("r", "sr"), ("add", "sub"), (5, -7, 100000)):
+        for op in BIN_OPS:
+            for o in others:
+                k += 1
+                if quick and k % 3:
+                    continue
+                sm = ("bin", inner, ("reg", kind), ("const", c))
+                right = o if op not in ("lsh", "rsh") or o[0] != "const" else ("const", 3)
+                out.append((("bin", op, sm, right), DSTS[k % len(DSTS)]))
+                if o[0] != "const":
+                    out.append((("bin", op, o, sm), DSTS[(k + 5) % len(DSTS)]))
+    return out
+
+
 def random_tree(rng, depth):
     if depth == 0 or rng.random() < 0.15:
         if rng.random() < 0.2:
@@ -109,7 +131,7 @@ def tree_has(tree, kinds):
 
 def run(ctx):
     fixed = random.Random(20260922)
-    stmts = depth1(ctx.quick)
+    stmts = depth1(ctx.quick) + register_plus_constant(ctx.quick)
     for _ in range(300 if ctx.quick else 2500):
         stmts.append((random_tree(fixed, 2 if ctx.quick or fixed.random() < 0.6 else 3), fixed.choice(DSTS)))
     for _ in range(60 if ctx.quick else 400):
